@@ -25,7 +25,8 @@ theorem rank_cases {t : CTy} {n : Nat} (h : t.rank = some n) :
 theorem isNum_cases {t : CTy} (h : t.isNum = true) : t = .int ∨ t = .float ∨ t = .double := by
   cases t <;> simp [CTy.isNum, CTy.rank] at h <;> simp
 
-theorem isScalar_cases {t : CTy} (h : t.isScalar = true) : t = .int ∨ t = .float ∨ t = .double ∨ t = .bool := by
+theorem isScalar_cases {t : CTy} (h : t.isScalar = true) :
+    t = .int ∨ t = .float ∨ t = .double ∨ t = .bool ∨ ∃ n b, t = .prim n b := by
   cases t <;> simp [CTy.isScalar] at h <;> simp
 
 theorem join_cases {a b j : CTy} (h : join a b = some j) :
@@ -150,7 +151,7 @@ theorem hasFields_at {S : Sig} {k : String} {w : Val D} {t : CTy} :
     exact hasFields_at h.2 hi hf
   | _ :: _, .int, _, h, _, _ | _ :: _, .float, _, h, _, _ | _ :: _, .double, _, h, _, _ | _ :: _, .bool, _, h, _, _
   | _ :: _, .str, _, h, _, _ | _ :: _, .event, _, h, _, _ | _ :: _, .obj _, _, h, _, _ | _ :: _, .vec _, _, h, _, _
-  | _ :: _, .tup _, _, h, _, _ | _ :: _, .dict _, _, h, _, _ | _ :: _, .fnil, _, h, _, _ => by simp [hasFields] at h
+  | _ :: _, .tup _, _, h, _, _ | _ :: _, .dict _, _, h, _, _ | _ :: _, .fnil, _, h, _, _ | _ :: _, .prim _ _, _, h, _, _ => by simp [hasFields] at h
 
 theorem hasFields_get {S : Sig} {k : String} {w : Val D} {t : CTy} :
     ∀ {items : List (String × Val D)} {fs : CTy}, hasFields S items fs = true → lookupAttr items k = some w → fieldGet fs k = some t →
@@ -167,7 +168,7 @@ theorem hasFields_get {S : Sig} {k : String} {w : Val D} {t : CTy} :
       exact hasFields_get hr hl hf
   | _ :: _, .int, h, _, _ | _ :: _, .float, h, _, _ | _ :: _, .double, h, _, _ | _ :: _, .bool, h, _, _
   | _ :: _, .str, h, _, _ | _ :: _, .event, h, _, _ | _ :: _, .obj _, h, _, _ | _ :: _, .vec _, h, _, _
-  | _ :: _, .tup _, h, _, _ | _ :: _, .dict _, h, _, _ | _ :: _, .fnil, h, _, _ => by simp [hasFields] at h
+  | _ :: _, .tup _, h, _, _ | _ :: _, .dict _, h, _, _ | _ :: _, .fnil, h, _, _ | _ :: _, .prim _ _, h, _, _ => by simp [hasFields] at h
 
 /-- the values of a tuple / dict fit the field list built from the same names -/
 theorem hasFields_mk {S : Sig} : ∀ (ks : List String) (vs : List (Val D)) (ts : List CTy), rowFits S vs ts = true →
@@ -499,6 +500,10 @@ theorem max_pick {N : Num D} (a w r : Val D) (h : (match pyLess N a w with
     | .error e => .error e) = .ok r) : r = a ∨ r = w := by
   inv_at h <;> cases h <;> simp
 
+theorem fnTy_ok {S : Sig} {f : String} {t : CTy} (h : fnTy S f = .ok t) : t = .float ∨ t = .double := by
+  unfold fnTy at h
+  inv_at h <;> cases h <;> simp
+
 mutual
 theorem typeOf_sound {S : Sig} {C : QCtx D} (hev : eventOk S C = true) :
     ∀ (q : Query) (Γ : TyEnv) (ρ : LEnv D), envOk S ρ Γ = true → ∀ (t : CTy) (v : Val D),
@@ -643,8 +648,8 @@ theorem typeOf_sound {S : Sig} {C : QCtx D} (hev : eventOk S C = true) :
     exact keyTy_sound ht (typeOf_sound hev a Γ ρ hρ _ _ (by assumption) (by assumption)) (by assumption)
   | .fn fname args, Γ, ρ, hρ, t, v, ht, hd => by
     simp only [typeOf] at ht; simp only [denote] at hd
-    inv_at ht; inv_at hd; cases ht; cases hd
-    simp [hasCTy]
+    inv_at ht; inv_at hd; cases hd
+    rcases fnTy_ok ht with rfl | rfl <;> simp [hasCTy]
 theorem typeOfs_sound {S : Sig} {C : QCtx D} (hev : eventOk S C = true) :
     ∀ (qs : List Query) (Γ : TyEnv) (ρ : LEnv D), envOk S ρ Γ = true → ∀ (ts : List CTy) (vs : List (Val D)),
       typeOfs S Γ qs = .ok ts → denotes C ρ qs = .ok vs → rowFits S vs ts = true
@@ -725,7 +730,7 @@ theorem defaultNames_get : ∀ (n k i : Nat), i < n → (defaultNames n k)[i]? =
 
 theorem fieldNames_length : ∀ (fs : CTy), (fieldNames fs).length = (fieldTypes fs).length
   | .fcons _ _ r => by simp [fieldNames, fieldTypes, fieldNames_length r]
-  | .int | .float | .double | .bool | .str | .event | .obj _ | .vec _ | .tup _ | .dict _ | .fnil => rfl
+  | .int | .float | .double | .bool | .str | .event | .obj _ | .vec _ | .tup _ | .dict _ | .fnil | .prim _ _ => rfl
 
 theorem fieldTypes_mk : ∀ (ks : List String) (ts : List CTy), ts.length ≤ ks.length → fieldTypes (mkFields ks ts) = ts
   | [], [], _ => rfl
@@ -758,10 +763,10 @@ theorem hasFields_rowFits {S : Sig} : ∀ {items : List (String × Val D)} {fs :
     simp only [hasFields, Bool.and_eq_true] at h
     simp [rowFits, fieldTypes, h.1.2, hasFields_rowFits h.2]
   | [], .fcons _ _ _, h | [], .int, h | [], .float, h | [], .double, h | [], .bool, h | [], .str, h | [], .event, h
-  | [], .obj _, h | [], .vec _, h | [], .tup _, h | [], .dict _, h => by simp [hasFields] at h
+  | [], .obj _, h | [], .vec _, h | [], .tup _, h | [], .dict _, h | [], .prim _ _, h => by simp [hasFields] at h
   | _ :: _, .int, h | _ :: _, .float, h | _ :: _, .double, h | _ :: _, .bool, h
   | _ :: _, .str, h | _ :: _, .event, h | _ :: _, .obj _, h | _ :: _, .vec _, h
-  | _ :: _, .tup _, h | _ :: _, .dict _, h | _ :: _, .fnil, h => by simp [hasFields] at h
+  | _ :: _, .tup _, h | _ :: _, .dict _, h | _ :: _, .fnil, h | _ :: _, .prim _ _, h => by simp [hasFields] at h
 
 theorem colShape_cases {t : CTy} (h : colShape t = true) : t.isScalar = true ∨ ∃ u, t = .vec u := by
   cases t <;> simp [colShape, CTy.isScalar] at h ⊢
@@ -778,7 +783,7 @@ theorem rowOf_fits {S : Sig} {v : Val D} {row : CTy} (hv : hasCTy S v row = true
     cases v <;> simp only [hasCTy, Bool.and_eq_true, beq_iff_eq] at hv <;> try (cases hv; done)
     obtain ⟨rfl, hf⟩ := hv
     simpa [rowOf, rowFields] using hasFields_rowFits hf
-  | int | float | double | bool | str | event | obj _ | vec _ | fnil | fcons _ _ _ =>
+  | int | float | double | bool | str | event | obj _ | vec _ | fnil | fcons _ _ _ | prim _ _ =>
     simp only [rowFields, allShapes, Bool.and_true] at hs
     rcases colShape_cases hs with h | ⟨u, h⟩ <;> simp [CTy.isScalar] at h
     all_goals (cases v <;> simp only [hasCTy] at hv <;> try (cases hv; done))
